@@ -324,7 +324,7 @@ def theorem_modules(prop_id):
             if not f.endswith('.lean'):
                 continue
             src = strip_lean_comments(open(os.path.join(d, f), encoding='utf-8').read())
-            names = re.findall(r'^\s*theorem\s+(' + re.escape(prop_id) + r'_[A-Za-z0-9_\.\']*)', src, re.M)
+            names = re.findall(r'^\s*theorem\s+(?:_root_\.PyTRS\.)?(' + re.escape(prop_id) + r'_[A-Za-z0-9_\.\']*)', src, re.M)
             # names are reported relative to the root namespace PyTRS (files open exactly one namespace at the top)
             ns = re.search(r'^namespace\s+PyTRS(?:\.([A-Za-z0-9_\.]+))?\s*$', src, re.M)
             if ns and ns.group(1):
